@@ -262,6 +262,10 @@ def r05_2(prog, out):
             # the call is only reached on the parser's success edge: the parser call dominates it
             pcalls = [pbb for pbb, pt in bi.calls(lambda c: prog.qual(bi.body, c.target) in parser)]
             # (when the parser runs in an enclosing body, e.g. before a spawned task, the value itself is the witness)
+            from common import skipped_only_when_empty
+            sk = skipped_only_when_empty(prog, bi, bb, t.args[1])
+            if sk is not None:
+                out.violation(key + ":applied", bi.loc(sk[0]), "deadline modifications: " + sk[1])
             if not pcalls or all(bi.cfg.dominates(p, bb) for p in pcalls):
                 out.holds(key, bi.loc(bb), "modifications applied are exactly the batch parser's Ok value")
             else:
